@@ -4,7 +4,8 @@ Every Python `set`/`dict`/`id()` the generator goes through is an explicit
 parameter of the model (an arbitrary list order, an arbitrary injective id
 assignment); the theorems state that what reaches the generated files does not
 depend on it.  Helper lemmas: `Proofs/SortPerm`, `Proofs/ToposortPerm`,
-`Proofs/ResolverPerm`, `Proofs/SeqNumRelabel`, `Proofs/PackagesPerm`. -/
+`Proofs/ResolverPerm`, `Proofs/SeqNumRelabel`, `Proofs/PackagesPerm`,
+`Proofs/SccStruct`, `Proofs/SccSem`, `Proofs/SccSpec`. -/
 import XsdataModel.Codegen.Pipeline
 import XsdataModel.Codegen.Types
 import XsdataModel.Codegen.SeqNum
@@ -15,6 +16,7 @@ import XsdataModel.Proofs.ResolverPerm
 import XsdataModel.Proofs.SeqNumRelabel
 import XsdataModel.Proofs.PackagesPerm
 import XsdataModel.Proofs.SccStruct
+import XsdataModel.Proofs.SccSpec
 
 namespace Props.C12
 open Py Xs.Codegen List
@@ -152,19 +154,38 @@ example : ClosedGraph [(['a'], [['b']]), (['b'], [['a'], ['b']])] := by
       rcases hy with rfl | rfl <;> decide
     · cases h
 
-/-- **Whole clusters step for two vertex orders** of `set(edges)` on a closed graph:
-provided the two searches found the same partition (this is what
-`strongly_connected_components` is *for*; that part is established by
-correspondence + the mutual-reachability oracle, not proved), the designation
-result is the same.  Disjointness and the absence of errors are no longer
-assumed: they follow from `scc_yields_partition`. -/
-theorem group_by_strong_components_invariant (package : Str) (cs : List ClassInfo)
+/-- **Specification of `strongly_connected_components`** (the exact path-based
+algorithm of `utils/graphs.py`, for *every* iteration order of `set(edges)` and
+of the adjacency lists): each yielded component is exactly a class of mutual
+reachability. -/
+theorem scc_spec (g : Graph) (hc : ClosedGraph g) (vorder : List Str)
+    (hv : ∀ v, v ∈ vorder ↔ v ∈ keysOf g) :
+    ∀ c ∈ (sccRun g vorder).out, ∀ x ∈ c, ∀ y, (y ∈ c ↔ (Reach g x y ∧ Reach g y x)) :=
+  Xs.Codegen.scc_spec g hc vorder hv
+
+/-- **The component search is independent of every iteration order**: two runs on
+the same graph presented differently (other dict order, other order inside
+`list(set(deps))`, other order of `set(edges)`) deliver the same partition. -/
+theorem scc_order_independent (g g' : Graph) (hc : ClosedGraph g) (hc' : ClosedGraph g')
+    (hk : ∀ x, x ∈ keysOf g ↔ x ∈ keysOf g') (he : ∀ x y, Edge g x y ↔ Edge g' x y)
+    (vo vo' : List Str) (hvo : ∀ v, v ∈ vo ↔ v ∈ keysOf g) (hvo' : ∀ v, v ∈ vo' ↔ v ∈ keysOf g') :
+    SamePartition (sccRun g vo).out (sccRun g' vo').out :=
+  (sccRun_classPartition g hc vo hvo).samePartition
+    ((sccRun_classPartition g' hc' vo' hvo').congr hk he)
+
+/-- **`group_by_strong_components` does not depend on the iteration order of
+`set(edges)`** — unconditionally on closed class graphs: the package and module
+of every class, and whether the step fails, are the same for any two orders.
+(Composition of `scc_order_independent`, `scc_yields_partition` and
+`clusters_assignment_invariant`.) -/
+theorem group_by_strong_components_order_independent (package : Str) (cs : List ClassInfo)
     (vo vo' : List Str) (hc : ClosedGraph (classEdges cs))
     (hvo : ∀ v, v ∈ vo ↔ v ∈ keysOf (classEdges cs))
-    (hvo' : ∀ v, v ∈ vo' ↔ v ∈ keysOf (classEdges cs))
-    (h : SamePartition (sccRun (classEdges cs) vo).out (sccRun (classEdges cs) vo').out) :
+    (hvo' : ∀ v, v ∈ vo' ↔ v ∈ keysOf (classEdges cs)) :
     (groupByStrongComponents package cs vo).toOption
       = (groupByStrongComponents package cs vo').toOption := by
+  have h := scc_order_independent (classEdges cs) (classEdges cs) hc hc (fun _ => Iff.rfl)
+    (fun _ _ => Iff.rfl) vo vo' hvo hvo'
   obtain ⟨he, _, hd, _⟩ := scc_partition (classEdges cs) hc vo hvo
   obtain ⟨he', _, _, _⟩ := scc_partition (classEdges cs) hc vo' hvo'
   have key := clusters_assignment_invariant package cs h hd
@@ -182,6 +203,57 @@ theorem group_by_strong_components_invariant (package : Str) (cs : List ClassInf
       rw [h1, h2] at key
       simp only [Except.toOption, Option.map_some, Option.some.injEq] at key
       simp [Except.toOption, key]
+
+/-- the same for `group_by_namespace_clusters` -/
+theorem group_by_namespace_clusters_order_independent (nsPackage : Option Str → Str)
+    (cs : List ClassInfo) (vo vo' : List Str) (hc : ClosedGraph (classEdges cs))
+    (hvo : ∀ v, v ∈ vo ↔ v ∈ keysOf (classEdges cs))
+    (hvo' : ∀ v, v ∈ vo' ↔ v ∈ keysOf (classEdges cs)) :
+    (groupByNamespaceClusters nsPackage cs vo).toOption
+      = (groupByNamespaceClusters nsPackage cs vo').toOption := by
+  have h := scc_order_independent (classEdges cs) (classEdges cs) hc hc (fun _ => Iff.rfl)
+    (fun _ _ => Iff.rfl) vo vo' hvo hvo'
+  obtain ⟨he, _, hd, _⟩ := scc_partition (classEdges cs) hc vo hvo
+  obtain ⟨he', _, _, _⟩ := scc_partition (classEdges cs) hc vo' hvo'
+  have key := ns_clusters_assignment_invariant nsPackage cs h hd
+  unfold groupByNamespaceClusters
+  simp only [he, he']
+  cases h1 : assignNsClusters nsPackage cs (sccRun (classEdges cs) vo).out with
+  | error e =>
+    cases h2 : assignNsClusters nsPackage cs (sccRun (classEdges cs) vo').out with
+    | error e' => rfl
+    | ok r' => rw [h1, h2] at key; simp [Except.toOption] at key
+  | ok r =>
+    cases h2 : assignNsClusters nsPackage cs (sccRun (classEdges cs) vo').out with
+    | error e' => rw [h1, h2] at key; simp [Except.toOption] at key
+    | ok r' =>
+      rw [h1, h2] at key
+      simp only [Except.toOption, Option.map_some, Option.some.injEq] at key
+      simp [Except.toOption, key]
+
+/-- **Layout of the generated package** (module of every class, class order and
+import list of every module — `DesignateClassPackages` followed by `render`'s
+per-module resolver runs): independent of the iteration order of `set(edges)`. -/
+theorem layout_clusters_order_independent (package : Str) (cs : List ClassInfo)
+    (vo vo' : List Str) (hc : ClosedGraph (classEdges cs))
+    (hvo : ∀ v, v ∈ vo ↔ v ∈ keysOf (classEdges cs))
+    (hvo' : ∀ v, v ∈ vo' ↔ v ∈ keysOf (classEdges cs)) :
+    (layoutClusters package cs vo).toOption = (layoutClusters package cs vo').toOption := by
+  have key := group_by_strong_components_order_independent package cs vo vo' hc hvo hvo'
+  unfold layoutClusters
+  cases h1 : groupByStrongComponents package cs vo with
+  | error e =>
+    cases h2 : groupByStrongComponents package cs vo' with
+    | error e' => rfl
+    | ok a' => rw [h1, h2] at key; simp [Except.toOption] at key
+  | ok a =>
+    cases h2 : groupByStrongComponents package cs vo' with
+    | error e' => rw [h1, h2] at key; simp [Except.toOption] at key
+    | ok a' =>
+      rw [h1, h2] at key
+      simp only [Except.toOption, Option.some.injEq] at key
+      subst key
+      rfl
 
 /-! ## 2. type priority after `set()` de-duplication -/
 
